@@ -12,3 +12,7 @@ Definition run_eq_triple (c : val * val * val) : J :=
   let '(x, y, z) := c in JL [JB (eq_model x y); JB (eq_model y z); JB (eq_model x z)].
 (* in_(x, seq) *)
 Definition run_in (c : val * list val) : J := JB (in_model (fst c) (snd c)).
+(* veq(x, y) on two arrays of the same shape: the cell-wise results *)
+Fixpoint map2b (f : val -> val -> bool) (a b : list val) : list J :=
+  match a, b with x :: a', y :: b' => JB (f x y) :: map2b f a' b' | _, _ => [] end.
+Definition run_veq (c : list val * list val) : J := JL (map2b eq_model (fst c) (snd c)).
